@@ -64,6 +64,11 @@ IsMinSearch == R.cls \in {"MinFlowDecomp", "MinFlowDecompCycles", "MinPathCover"
 GivenShortcut == /\ phase = "Searching" /\ \A i \in 1..Len(hist) : hist[i] = "Infeasible"
                  /\ \E i \in 1..Len(R.events) : R.events[i][1] = "given" /\ Class(R.events[i][2]) = "Optimal"
 
+IsKModel == R.cls \in {"kFlowDecomp", "kMinPathError", "kLeastAbsErrors", "kPathCover", "kFlowDecompCycles",
+                        "kMinPathErrorCycles", "kLeastAbsErrorsCycles", "kPathCoverCycles", "MinSetCover"}
+(* a k-model runs its solver once; the library saw an inconclusive status in that run *)
+AnyInc == \E i \in 1..Len(R.events) : Class(R.events[i][2]) \in Inconclusive
+
 Clauses == {"NoProcessExit", "InconclusiveNeverSolved", "NoDataWhenUnsolved", "SolvedOnlyWhenSpecSolved",
             "FaultFreeSolvesWithOptimum", "NeverNonMinimal", "EventsExplained", "ReturnsFalseWhenUnsolved",
             "PreSolveGettersRaise", "ReturnedModelProvenOptimal"}
@@ -73,14 +78,14 @@ Applicable(c) ==
     [] c = "NeverNonMinimal" -> IsMinSearch /\ ObsSolved
     [] c = "PreSolveGettersRaise" -> R.checked_pre = TRUE
     [] c = "SolvedOnlyWhenSpecSolved" -> IsMinSearch
-    [] c = "InconclusiveNeverSolved" -> IsMinSearch
+    [] c = "InconclusiveNeverSolved" -> IsMinSearch \/ IsKModel
     [] c = "ReturnedModelProvenOptimal" -> R.cls = "NumPathsOptimization" /\ ObsSolved
     [] c = "EventsExplained" -> IsMinSearch
     [] OTHER -> TRUE
 
 Holds(c) ==
   CASE c = "NoProcessExit" -> R.process_exit = FALSE /\ R.solve_exc = "none"
-    [] c = "InconclusiveNeverSolved" -> AnyMainInc => (~ObsSolved /\ R.solve_ret # 1)
+    [] c = "InconclusiveNeverSolved" -> (IF IsKModel THEN AnyInc ELSE AnyMainInc) => (~ObsSolved /\ R.solve_ret # 1)
     [] c = "NoDataWhenUnsolved" -> ~ObsSolved => (~GotData /\ R.obj_exc # "none")
     [] c = "SolvedOnlyWhenSpecSolved" -> ObsSolved => (phase = "Solved" \/ GivenShortcut)
     [] c = "FaultFreeSolvesWithOptimum" -> ObsSolved /\ R.solve_ret = 1 /\ GotData /\ R.count = R.count_ref
